@@ -174,10 +174,57 @@ def task_group_centres(pr, repo):
         pr.explore(ex, thunk, 'centre %s' % ci.name)
 
 
+def task_backbone_two_runs(pr, repo):
+    """B2: set_backbone_determinants gives the same determinants for a moved copy of the same geometry.  Its geometric callees
+    (closest pair, angle factor, H-bond energy, parameter look-up) are abstracted by their invariance contracts (SQ, AD): they return
+    the same values for corresponding atoms; anything ELSE the routine does with coordinates shows up as a difference."""
+    from pyvc.core import Builtin
+    from . import C16
+    ex = Executor(repo)
+    fi = repo.func('propka.determinants.set_backbone_determinants')
+    pr.under_contract(fi)
+    A = repo.cls('propka.atom.Atom')
+    Ps = C17.perms24()
+    t = [R('t' + c) for c in 'xyz']
+    for btype in ('BBC', 'BBN'):
+        for P_ in (Ps[0], Ps[5], Ps[9], Ps[16]) if pr.tier == 'quick' else Ps:
+            def thunk(ex, ctx, btype=btype, P_=P_):
+                dist, fang, dpka, c1, c2, en = R('dist'), R('f_angle'), R('dpka_max'), R('c1'), R('c2'), R('hb_energy')
+                ctx.assume(And(dist >= 0, c1 < c2, fang <= 1, fang >= -1))
+                results = []
+                for run in (0, 1):
+                    def mv(v):
+                        return v if run == 0 else moved(P_, t, v)
+                    pt = pts(5, prefix='p')
+                    heavy = atom_at(repo, 'heavy%d' % run, mv(pt[0]))
+                    heavy.attrs.update(element='N')
+                    ta = atom_at(repo, 'tatom%d' % run, mv(pt[1]))
+                    ta.attrs.update(element='H', bonded_atoms=[heavy])
+                    bn = atom_at(repo, 'bheavy%d' % run, mv(pt[2]))
+                    bn.attrs.update(element='N')
+                    ba = atom_at(repo, 'batom%d' % run, mv(pt[3]))
+                    ba.attrs.update(element='H' if btype == 'BBN' else 'O', bonded_atoms=[bn])
+                    gc, bc = mv(pt[4]), mv(pts(1, prefix='b')[0])
+                    tg = C16.sym_group(repo, 'tg%d' % run, type='HIS', interaction_atoms_for_acids=[ta], x=gc[0], y=gc[1], z=gc[2])
+                    tg.attrs['charge'] = R('q')
+                    bb = C16.sym_group(repo, 'bb%d' % run, type=btype, x=bc[0], y=bc[1], z=bc[2])
+                    bb.attrs['get_interaction_atoms'] = Builtin('gia', lambda ex_, g, ba=ba: [ba])
+                    version = record('version', None, parameters=record('P', None, angular_dependent_sidechain_interactions=['HIS']))
+                    version.attrs['get_backbone_hydrogen_bond_parameters'] = Builtin('bbp', lambda ex_, *a, **k: [dpka, [c1, c2]])
+                    ex.contracts['propka.calculations.get_smallest_distance'] = lambda ex_, c_, f_, a, k, so, ba=ba, ta=ta: [ba, dist, ta]
+                    ex.contracts['propka.energy.angle_distance_factors'] = lambda ex_, c_, f_, a, k, so: (R('d12'), fang, R('d23'))
+                    ex.contracts['propka.energy.hydrogen_bond_energy'] = lambda ex_, c_, f_, a, k, so: en
+                    ex.call_function(fi, [[tg], [bb], version])
+                    results.append([d.attrs['value'] for d in tg.attrs['determinants']['backbone']])
+                same = len(results[0]) == len(results[1]) and And(*[a == b for a, b in zip(results[0], results[1])])
+                ctx.oblige('B2[%s, P=%r]: the backbone determinants of a moved copy equal those of the original' % (btype, P_), same)
+            pr.explore(ex, thunk, 'set_backbone_determinants two runs %s %r' % (btype, P_))
+
+
 def run(pr, repo):
     tasks = [(task_invariance, ()), (C11.task_cell_lemma, ()), (C11.task_offsets, ()), (C11.task_check_distance, ()),
              (C11.task_boxes_pair, ('S', 'S', False, (0,))), (C17.task_equivariance, ()), (C17.task_add_proton, ()),
-             (C17.task_orthogonal, ()), (task_group_centres, ()), (C20.task_rotation, ())]
+             (C17.task_orthogonal, ()), (task_group_centres, ()), (C20.task_rotation, ()), (task_backbone_two_runs, ())]
     pr.parallel(tasks)
     C07.task_columns(pr, repo)
     ground_callsites(pr, repo)
